@@ -62,6 +62,16 @@ def _guard(op, paths):
             REC.blocked.append("%s:%s" % (op, p))
             raise PermissionError(13, "C19 harness: refusing to modify a path outside the scratch tree", p)
 
+def _from_tracer():
+    """the framework's line-coverage measurement (thorough tier) canonicalises the file name of every source file it meets
+    (os.path.realpath -> lstat) from inside its trace function, i.e. in the middle of the server's code: not the server's doing"""
+    f = sys._getframe(2); n = 0
+    while f is not None and n < 25:
+        fn = f.f_code.co_filename
+        if "/coverage/" in fn or fn.endswith("/coverage.py"): return True
+        f = f.f_back; n += 1
+    return False
+
 def _install():
     if REC.installed: return
     REC.installed = True
@@ -69,7 +79,7 @@ def _install():
     def wrap_os(name):
         orig = getattr(os, name); REC.orig[name] = orig
         def w(*a, **k):
-            if REC.on:
+            if REC.on and not _from_tracer():
                 paths = [x for x in (_p(x) for x in a[:2 if name in _TWO else 1]) if x is not None]
                 REC.events.append((name, paths, a[1] if name == "open" and len(a) > 1 else None))
                 if name in _MUTATING_OS or (name == "open" and len(a) > 1 and isinstance(a[1], int)
@@ -84,7 +94,7 @@ def _install():
         if hasattr(os, n): wrap_os(n)
     orig_open = io.open; REC.orig["io.open"] = orig_open
     def open_w(file, mode="r", *a, **k):
-        if REC.on:
+        if REC.on and not _from_tracer():
             p = _p(file)
             if p is not None:
                 REC.events.append(("io.open", [p], mode))
@@ -96,6 +106,7 @@ def _install():
     io.open = open_w; builtins.open = open_w
     def hook(ev, args):
         if not REC.on: return
+        if ev == "open" and _from_tracer(): return
         if ev == "open" or ev.startswith(("os.", "shutil.", "tempfile.", "pathlib.", "glob.")):
             cand = args[:1] if ev in ("open", "os.listdir", "os.scandir", "os.remove", "os.rmdir", "os.mkdir", "os.chmod", "os.chown", "os.truncate", "os.utime", "tempfile.mkstemp", "tempfile.mkdtemp") else args
             paths = [p for p in (_p(a) for a in cand if isinstance(a, (str, bytes, os.PathLike))) if p is not None]
@@ -134,11 +145,16 @@ class World:
                 os.makedirs(os.path.dirname(p), exist_ok=True)
                 with open(p, "wb") as f: f.write(content(e["size"], e["seed"]))
         self.loop = simloop.VLoop()
-        self.srv = FileServer(Path(self.root), logging.getLogger("fileserver"), write=bool(inp.get("write")), etag_length=inp.get("etag_length", 8))
+        # a relative root (the CLI default is "."): the process's working directory becomes the root itself (".") or its parent
+        self.rootspec = inp.get("rootspec"); self.prevcwd = None
+        if self.rootspec:
+            self.prevcwd = os.getcwd(); os.chdir(self.root if self.rootspec == "." else self.base)
+        self.srv = FileServer(Path(self.rootspec or self.root), logging.getLogger("fileserver"), write=bool(inp.get("write")), etag_length=inp.get("etag_length", 8))
         self.ctx, self.tman, self.mman, self.mi = simnet.make_stack(self.loop, self.srv)
         self.peer = simnet.Addr("peer"); self.simnet = simnet
         self.n = 0
     def close(self):
+        if self.prevcwd is not None: os.chdir(self.prevcwd)
         shutil.rmtree(self.base, ignore_errors=True)
     # -------------------------------------------------------------------------------- symbolic path components
     def sym(self, name):
@@ -197,8 +213,8 @@ class World:
     # -------------------------------------------------------------------------------- canonical forms
     def cpath(self, p, tmp):
         if tmp and (p == tmp or p.startswith(tmp + "/")): p = os.path.dirname(tmp) + "/" + TMPNAME + p[len(tmp):]
-        if not p.startswith("/"): return ["rel"] + p.split("/")
-        parts = [x for x in p.split("/") if x]
+        if not p.startswith("/"): p = os.path.join(os.getcwd(), p)        # relative paths (relative root) are seen from the case's working directory
+        parts = [x for x in p.split("/") if x and x != "."]
         for tag, pre in (("in", self.root), ("base", self.base)):
             pp = [x for x in pre.split("/") if x]
             if parts[:len(pp)] == pp: return [tag] + canon_parts(parts[len(pp):], [x for x in self.base.split("/") if x])
@@ -280,23 +296,26 @@ class C19(fw.Property):
                  "PurePosixPath and of every render method as an effect-producing state machine; Hoare-style confinement/frame proofs for all requests, "
                  "file systems and histories; differential correspondence of effect traces, responses and final trees against the real FileServer behind the real protocol stack")
     level_text = ("Theorems (closed under the global context): the path returned by the translated request_to_localpath is root's parts followed by the non-empty Uri-Path "
-                  "components and contains no '..' (for every component list; the pre-fix code is refuted by the leading-empty-component witness); every file-system effect "
-                  "of every method, on every file-system state and over every request history, is on a path under the root, and no entry outside the root ever changes; "
+                  "components and contains no '..' (for every component list, for absolute AND relative roots such as the CLI default '.': a relative root never yields an absolute path; "
+                  "the pre-fix code is refuted by the leading-empty-component witness); every file-system effect of every method, on every file-system state and over every "
+                  "request history (including Block1 sequences through the spool in front of PUT), is on a path under the root (the temporary file under a relative root: under "
+                  "working directory ++ root, as os.path.abspath makes it), and no entry outside the root ever changes; "
                   "without write permission and for every method other than PUT/DELETE the file system is unchanged; a request answered with an error leaves the file system "
                   "equivalent; fetching a file block by block with any size exponent reassembles exactly its content.")
     level_note = ("Modelled, not proved about CPython: posixpath.join/splitroot, pathlib parsing, tempfile's call sequence, os.* error behaviour (tied by the pathmodel and history "
-                  "streams). Not modelled: symlinks inside the root, check_files_for_refreshes, Block1 reassembly and the Block2 cache in front of directory listings (exercised "
-                  "oracle-only in the 'wild' stream), permissions, PATH_MAX, lone surrogates (cannot arrive over the wire), temp-name collisions (tempfile retries).")
+                  "streams). Not modelled: symlinks inside the root, check_files_for_refreshes, the Block2 cache in front of directory listings (exercised "
+                  "oracle-only in the 'wild' stream), expiry of Block1 assemblies, relative roots containing '..', permissions, PATH_MAX, lone surrogates (cannot arrive over the wire), temp-name collisions (tempfile retries).")
     rule = ("streams: pathmodel = joinpath / truediv on hostile segment lists vs pathlib.PurePosixPath; localpath = translated request_to_localpath vs the real method on Message "
             "objects; history = 1-6 requests (GET/PUT/DELETE/POST/FETCH/PATCH/iPATCH x Uri-Path over a path-significant alphabet incl. '', '.', '..', 'a/b', absolute components, "
-            "NUL, 255/256-byte names, Unicode look-alikes x write on/off x ETag/If-Match/If-None-Match x Observe x Block2 num/szx x fetch-all loops) on a random tree with files of "
-            "boundary sizes, compared as (effect trace, code, payload/Block2/listing, ETag presence) per request plus the final tree; wild = the same plus Block1, Block2 on anything, "
+            "NUL, 255/256-byte names, Unicode look-alikes x write on/off x ETag/If-Match/If-None-Match x Observe x Block2 num/szx x fetch-all loops x Block1 sequences (complete, gap, short block, restart, repeated last block, "
+            "missing first block, Observe bypass, other key; en bloc or interleaved) x root given absolutely or relatively ('.', 'root', './root/', 'root//', working directory set accordingly)) on a random tree with files of "
+            "boundary sizes, compared as (effect trace, code, payload/Block2/listing, ETag presence) per request plus the final tree; wild = the same plus Block1 combined with Block2, Block2 on anything, "
             "unknown method codes, queries (oracle only). Non-trivial = at least one file-system effect and (for history) both a success and an error response or a write; distinct by full input.")
     trusted_base = ["translator translate/jobs/c19.py + Model/C19Path.v intrinsics (validated by the pathmodel and localpath streams on every run)",
                     "hand-written Model/C19.v (validated by the history stream: effect traces, responses, final trees)",
                     "harness: os/io wrappers + sys.addaudithook as the observation of 'touched paths'; CPython 3.12 pathlib/posixpath/tempfile; ext4 semantics of the scratch tree",
                     "virtual-time loop and fake transport (harness/simloop.py, simnet.py)"]
-    assumptions = ["no symbolic links below the root", "the root is an absolute path without '..' (root_ok)", "single-threaded server, no concurrent modification of the tree",
+    assumptions = ["no symbolic links below the root", "the root is an absolute path or a relative path (root_ok); the one-name-space file-system model and the absolutised temp name assume a relative root's parts contain no '..'", "single-threaded server, no concurrent modification of the tree",
                    "temporary file names are fresh (tempfile retries on collision)"]
 
     def __init__(self):
@@ -347,7 +366,7 @@ class C19(fw.Property):
             if isinstance(c, dict) and "rep" not in c: c = "/abs" + c.get("tail", "")
             comps.append(c)
         if rng.random() < 0.1: comps.append("\ud800")        # a lone surrogate can be put into a Message object (not on the wire)
-        return {"root": rng.choice(["/srv/root", "/srv/root/", "/r", "/srv//root"]), "path": comps}
+        return {"root": rng.choice(["/srv/root", "/srv/root/", "/r", "/srv//root", ".", ".", "sub", "./sub/", "sub/dir", ""]), "path": comps}
 
     def gen_tree(self, rng):
         t = [{"p": ["f.txt"], "size": rng.choice(SIZES[:14]), "seed": rng.randint(0, 9)},
@@ -398,7 +417,10 @@ class C19(fw.Property):
     def gen_history(self, rng, wild):
         tree = self.gen_tree(rng)
         inp = {"write": rng.random() < 0.65, "etag_length": rng.choice([8, 8, 8, 4, 0]), "tree": tree, "items": []}
-        for _ in range(rng.randint(1, 6)):
+        if rng.random() < 0.4: inp["rootspec"] = rng.choice([".", ".", ".", "root", "./root/", "root//"])      # relative roots; "." is the CLI default
+        b1 = rng.random() < (0.3 if not wild else 0.1)
+        if b1 and rng.random() < 0.5: inp["items"] += self.gen_block1(rng, tree)
+        for _ in range(rng.randint(1, 6) if not (b1 and inp["items"]) else rng.randint(0, 2)):
             m = rng.choice([1, 1, 1, 1, 3, 3, 3, 4, 4, 2, 5, 6, 7])
             if wild and rng.random() < 0.1: m = rng.choice([8, 9, 15, 30, 31])
             kind = rng.choice({1: ["file", "file", "file", "dir", "dir", "escape", "mix", "new"], 3: ["new", "new", "file", "dir", "escape", "mix", "renamefail"],
@@ -430,7 +452,36 @@ class C19(fw.Property):
                 if rng.random() < 0.15: it["query"] = [rng.choice(["a=b", "../..", "path=/etc/passwd", ""])]
                 if rng.random() < 0.1: it["host"] = rng.choice(["example.com", "..", "/"])
             inp["items"].append(it)
+        if b1 and not any("block1" in it for it in inp["items"]):
+            seq = self.gen_block1(rng, tree); k = rng.randint(0, len(inp["items"]))
+            if rng.random() < 0.5: inp["items"] = inp["items"][:k] + seq + inp["items"][k:]                      # en bloc
+            else:                                                                                                # interleaved with the other requests
+                for it in seq:
+                    k = rng.randint(k, len(inp["items"])); inp["items"].insert(k, it); k += 1
         return inp
+    def gen_block1(self, rng, tree):
+        """a Block1 sequence towards one target: complete, or with a gap / a short middle block / a restart / a repeated last
+        block / no first block; the body is the concatenation of the blocks' patterns"""
+        dirs = [e["p"] for e in tree if e.get("d")]; files = [e["p"] for e in tree if not e.get("d")]
+        path = rng.choice([list(rng.choice(dirs + [[]])) + [rng.choice(["new", "blk", "日本"])], list(rng.choice(files)), list(rng.choice(dirs)), ["", ""] + list(rng.choice(files)),
+                           ["..", "outside", "secret"], ["", {"sym": "OUT"}, "secret"], ["nodir", "x"]])
+        m = rng.choice([3, 3, 3, 3, 3, 4, 2, 1])
+        if m == 1: path = list(rng.choice(dirs + [[]])) + [""]          # a GET goes through the spool only for directory-like paths
+        szx = rng.choice([0, 0, 1, 2, 6, 7]); bs = 2 ** (min(szx, 6) + 4); nfull = rng.randint(1, 3)
+        opts = {}
+        if rng.random() < 0.2: opts["if_match"] = [rng.choice(["other", "empty"])]
+        if rng.random() < 0.15: opts["inm"] = True
+        seq = [dict(opts, m=m, path=path, block1=[i, True, szx], payload=[bs, rng.randint(0, 9)]) for i in range(nfull)]
+        seq.append(dict(opts, m=m, path=path, block1=[nfull, False, szx], payload=[rng.choice([0, 1, bs - 1, bs]), rng.randint(0, 9)]))
+        fault = rng.choice(["none", "none", "none", "gap", "short", "restart", "repeat-last", "no-first", "observe", "other-key"])
+        if fault == "gap" and len(seq) > 2: del seq[1]
+        elif fault == "short": seq[rng.randint(0, nfull - 1)]["payload"][0] = bs - 1
+        elif fault == "restart": seq.insert(rng.randint(1, len(seq) - 1), dict(seq[0]))
+        elif fault == "repeat-last": seq.append(dict(seq[-1]))
+        elif fault == "no-first": del seq[0]
+        elif fault == "observe": seq[-1]["obs"] = 0                     # Observe:0 bypasses the spool: only the last block's payload is seen
+        elif fault == "other-key": seq[-1]["inm"] = not seq[-1].get("inm", False)
+        return seq
 
     # ---------------------------------------------------------------- implementation
     def impl(self, stream, inp):
@@ -458,7 +509,7 @@ class C19(fw.Property):
         return [c["rep"][0] * c["rep"][1] if isinstance(c, dict) else c for c in comps]
 
     def run_history(self, w, inp):
-        out = []; side = []; pls = []
+        out = []; side = []; pls = []; after = []
         for it in inp["items"]:
             self.payloads = []
             comps = w.expand(it["path"])
@@ -479,7 +530,10 @@ class C19(fw.Property):
             else:
                 group.append(self.one(w, it, comps, it.get("block2")))
             out.append(group); pls.append(self.payloads)
-        self.side[fw.jdump(inp)] = (side, pls)
+            after.append(None)
+            if t is not None and os.path.isfile(t):
+                with open(t, "rb") as f: after[-1] = f.read()
+        self.side[fw.jdump(inp)] = (side, pls, after)
         final = sorted([["base"] + k.split("/"), v[0] == "d"] + ([0, 0] if v[0] == "d" else [v[1], v[2]]) for k, v in snapshot(w.base).items())
         exc = [str(c.get("exception") or c.get("message"))[:120] for c in w.loop.exceptions]
         res = {"trace": out, "final": final}
@@ -521,8 +575,9 @@ class C19(fw.Property):
     def g_request(self, it, comps, w=None):
         def tags(l): return glist([{"cur": "ECur", "other": "EOther", "empty": "EEmpty"}[x] for x in (l or [])])
         b2 = it.get("block2")
-        return ("{| code := %d; opt_uri_path := %s; opt_observe := %s; opt_etags := %s; opt_if_match := %s; opt_if_none_match := %s; opt_block2 := %s; payload := %s |}"
+        return ("{| code := %d; opt_uri_path := %s; opt_observe := %s; opt_etags := %s; opt_if_match := %s; opt_if_none_match := %s; opt_block1 := %s; opt_block2 := %s; payload := %s |}"
                 % (it["m"], gsl(comps), gopt(it.get("obs"), gz), tags(it.get("etags")), tags(it.get("if_match")), gbool(it.get("inm")),
+                   "None" if it.get("block1") is None else "(Some (%d, %s, %d))" % (it["block1"][0], gbool(it["block1"][1]), it["block1"][2]),
                    "None" if b2 is None else "(Some (%d, %s, %d))" % (b2[0], gbool(b2[1]), b2[2]), "(pattern %d %d)" % tuple(it["payload"]) if it.get("payload") else "[]"))
     MODEL_BASE = "/B"          # where the model's tree lives; results are compared relative to it
     def model_expand(self, comps):
@@ -544,30 +599,37 @@ class C19(fw.Property):
         if stream == "localpath":
             comps = self.expand_plain(inp["path"])
             if any(0xD800 <= ord(ch) <= 0xDFFF for c in comps for ch in c) and False: return None
-            srv = "{| fs_root := [%s]; fs_write := false; fs_etag_enabled := true; fs_tmpname := %s |}" % (gs(inp["root"]), gs(TMPNAME))
+            srv = "{| fs_root := [%s]; fs_write := false; fs_etag_enabled := true; fs_tmpname := %s; fs_cwd := [] |}" % (gs(inp["root"]), gs(TMPNAME))
             req = self.g_request({"m": 1}, comps)
             return "match request_to_localpath %s %s with Ok p => Some (anchor (load_parts p), parts (load_parts p)) | Raise _ => None end" % (srv, req)
         if stream != "history": return None
         base = self.MODEL_BASE; bparts = [x for x in base.split("/") if x]
-        srv = "{| fs_root := [%s]; fs_write := %s; fs_etag_enabled := %s; fs_tmpname := %s |}" % (gs(base + "/root"), gbool(inp.get("write")), gbool(inp.get("etag_length", 8) != 0), gs(TMPNAME))
-        ents = []
-        for i in range(1, len(bparts) + 1): ents.append("(%s, NDir)" % gsl(bparts[:i]))
-        ents.append("(%s, NDir)" % gsl(bparts + ["root"]))
+        rootspec = inp.get("rootspec"); cwd = self.model_cwd(inp)
+        srv = "{| fs_root := [%s]; fs_write := %s; fs_etag_enabled := %s; fs_tmpname := %s; fs_cwd := %s |}" % (
+            gs(rootspec or base + "/root"), gbool(inp.get("write")), gbool(inp.get("etag_length", 8) != 0), gs(TMPNAME), gsl(cwd))
+        ents = []       # (absolute parts, node)
+        for i in range(1, len(bparts) + 1): ents.append((bparts[:i], "NDir"))
+        ents.append((bparts + ["root"], "NDir"))
         seen = set()
         for e in inp["tree"]:
             for i in range(1, len(e["p"])):
                 if tuple(e["p"][:i]) not in seen:
-                    seen.add(tuple(e["p"][:i])); ents.append("(%s, NDir)" % gsl(bparts + ["root"] + e["p"][:i]))
+                    seen.add(tuple(e["p"][:i])); ents.append((bparts + ["root"] + e["p"][:i], "NDir"))
             if tuple(e["p"]) in seen: continue
             seen.add(tuple(e["p"]))
-            ents.append("(%s, %s)" % (gsl(bparts + ["root"] + e["p"]), "NDir" if e.get("d") else "NFile (pattern %d %d)" % (e["size"], e["seed"])))
-        ents += ["(%s, NDir)" % gsl(bparts + ["outside"]), "(%s, NFile %s)" % (gsl(bparts + ["outside", "secret"]), "secret_content"),
-                 "(%s, NDir)" % gsl(bparts + ["root2"]), "(%s, NFile %s)" % (gsl(bparts + ["root2", "x"]), "secret_content")]
+            ents.append((bparts + ["root"] + e["p"], "NDir" if e.get("d") else "NFile (pattern %d %d)" % (e["size"], e["seed"])))
+        ents += [(bparts + ["outside"], "NDir"), (bparts + ["outside", "secret"], "NFile secret_content"),
+                 (bparts + ["root2"], "NDir"), (bparts + ["root2", "x"], "NFile secret_content")]
+        if rootspec:    # one name space per server: under a relative root the keys are relative to the working directory
+            ents = [(k[len(cwd):], n) for k, n in ents if k[:len(cwd)] == cwd and len(k) > len(cwd)]
         items = []
         for it in inp["items"]:
             req = self.g_request(it, self.model_expand(it["path"]))
             items.append("IAll %s %d" % (req, it["all"]) if it.get("all") is not None else "IOne %s" % req)
-        return "disp_run %s {| st_fs := %s; st_obs := [] |} %s" % (srv, glist(ents), glist(items))
+        return "disp_run %s {| st_fs := %s; st_obs := []; st_spool := [] |} %s" % (srv, glist(["(%s, %s)" % (gsl(k), n) for k, n in ents]), glist(items))
+    def model_cwd(self, inp):
+        bparts = [x for x in self.MODEL_BASE.split("/") if x]
+        return bparts + ["root"] if inp.get("rootspec") == "." else bparts
 
     def decode(self, stream, inp, parsed):
         if stream == "pathmodel":
@@ -581,10 +643,12 @@ class C19(fw.Property):
             return {"anchor": a, "parts": [pstr(x) for x in parts]}
         outs, fsd = parsed
         bparts = [x for x in self.MODEL_BASE.split("/") if x]
+        cwd = self.model_cwd(inp); rel = bool(inp.get("rootspec"))
         def dpath(d):
             if d.name == "DIn": return ["in"] + canon_parts([pstr(x) for x in d.args[0]], bparts)
             a, ps = d.args; ps = [pstr(x) for x in ps]
-            if a == 0: return ["rel"] + ps
+            if a == 0: ps = cwd + ps                       # a relative path is seen from the working directory
+            if ps[:len(bparts) + 1] == bparts + ["root"]: return ["in"] + canon_parts(ps[len(bparts) + 1:], bparts)
             if ps[:len(bparts)] == bparts: return ["base"] + canon_parts(ps[len(bparts):], bparts)
             return ["abs"] + ps
         names = {"DStat": "Stat", "DOpenRead": "OpenRead", "DListDir": "ListDir", "DOpenDirW": "OpenDirW", "DCreate": "Create", "DRename": "Rename", "DUnlink": "Unlink"}
@@ -607,7 +671,11 @@ class C19(fw.Property):
         final = []
         for k, isd, ln, ck in fsd:
             k = [pstr(x) for x in k]
+            if rel: k = cwd + k
             if k[:len(bparts)] == bparts and len(k) > len(bparts): final.append([["base"] + k[len(bparts):], isd, ln, ck])
+        if inp.get("rootspec") == ".":      # what lies above the working directory is not in the model's name space (and cannot be named without "..")
+            final += [[["base", "root"], True, 0, 0], [["base", "outside"], True, 0, 0], [["base", "outside", "secret"], False, len(SECRET), cksum(SECRET)],
+                      [["base", "root2"], True, 0, 0], [["base", "root2", "x"], False, len(SECRET), cksum(SECRET)]]
         return {"trace": trace, "final": sorted(final)}
 
     # ---------------------------------------------------------------- oracle: the property on the implementation's behaviour
@@ -620,11 +688,12 @@ class C19(fw.Property):
                 if res != "InvalidPathError": return ("C19:localpath-exception:" + res, "request_to_localpath raised %s for %r" % (res, inp["path"]))
                 return None
             rootparts = [x for x in inp["root"].split("/") if x and x != "."]
-            if res["anchor"] != 1 or res["parts"][:len(rootparts)] != rootparts or ".." in res["parts"][len(rootparts):]:
+            if res["anchor"] != (1 if inp["root"].startswith("/") else 0) or res["parts"][:len(rootparts)] != rootparts or ".." in res["parts"][len(rootparts):]:
                 return ("C19:localpath-escape", "request_to_localpath(%r) under root %s gives %s%s" % (inp["path"], inp["root"], "/" * res["anchor"], "/".join(res["parts"])))
             return None
         if res.get("loop_exceptions"): return ("C19:loop-exception", "exception reached the event loop: %s" % res["loop_exceptions"][0])
-        side, pls = self.side.get(fw.jdump(inp), (None, None))
+        side, pls, after = self.side.get(fw.jdump(inp), (None, None, None))
+        spool = {}      # the oracle's own reading of RFC 7959 Block1: key -> body so far
         for i, (it, group) in enumerate(zip(inp["items"], res["trace"])):
             comps = self.model_expand(it["path"])
             what = "request %d (method %d, Uri-Path %r)" % (i, it["m"], it["path"])
@@ -640,6 +709,20 @@ class C19(fw.Property):
                 if r["code"] == -1: return ("C19:no-response", "%s got no response" % what)
                 if lex_escapes(comps) and r["code"] < 128 and r["code"] != 95 and comps != WKC:      # 2.31 Continue only acknowledges a Block1 block
                     return ("C19:escaping-request-accepted", "%s would lead outside the root but was answered %d.%02d" % (what, r["code"] >> 5, r["code"] & 31))
+            # Block1: what a completed sequence writes is the concatenation of its blocks; 2.31 has no effect
+            for r in group:
+                if r["code"] == 95 and (r["chg"] or r["eff"]): return ("C19:continue-with-effect", "%s was answered 2.31 Continue but touched the file system: %s" % (what, r["eff"][:2]))
+            if it.get("block1") is not None and it["block1"][1] and it.get("obs") != 0 and any(r["chg"] for r in group):
+                return ("C19:partial-body-written", "%s: Block1 block %s with the M bit set modified the tree (code %s)" % (what, it["block1"], group[0]["code"]))
+            if it.get("block1") is not None and it["m"] != 1 and it.get("obs") != 0 and not it.get("block2"):
+                key = fw.jdump([it["m"], comps, it.get("etags"), it.get("if_match"), bool(it.get("inm"))])
+                num, more, szx = it["block1"]; body = content(*it["payload"]) if it.get("payload") else b""
+                if num == 0: spool[key] = body
+                elif key in spool and num * 2 ** (min(szx, 6) + 4) == len(spool[key]) and group[0]["code"] not in (128, 136): spool[key] += body
+                elif key in spool and group[0]["code"] < 128: return ("C19:block1-gap-accepted", "%s: block %d does not continue a body of %d bytes but was answered %d" % (what, num, len(spool[key]), group[0]["code"]))
+                if it["m"] == 3 and not more and group[0]["code"] == 68 and key in spool and after is not None and after[i] is not None and after[i] != spool[key]:
+                    return ("C19:block1-body-mismatch", "%s: the assembled body has %d bytes, the file written has %d (first difference at %d)" % (
+                        what, len(spool[key]), len(after[i]), next((j for j in range(min(len(after[i]), len(spool[key]))) if after[i][j] != spool[key][j]), min(len(after[i]), len(spool[key])))))
             # block-wise reads
             disk = side[i] if side is not None and i < len(side) else None
             if it["m"] == 1 and disk is not None and comps and comps[-1] != "" and comps != WKC and not it.get("block1") and not it.get("etags"):
